@@ -508,9 +508,14 @@ impl BuildJob<'_> {
         crate::verif::point("job.oob", &format!("{}", self.lock.file_id()));
         #[cfg(feature = "verif")]
         let oob_fid = self.lock.file_id();
+        let oob_lock_id = self.lock.file_id();
         let job = server.start(self.t.into_string(), || {
             #[cfg(feature = "verif")]
             crate::verif::point("job.child", &format!("{} oob", oob_fid));
+            // We hold this target's lock while redo-unlocked rebuilds its dependencies:
+            // like a script's, that makes it a target under construction for everything
+            // below, or a dependency that leads back to it waits for our lock for ever.
+            cycles::add(oob_lock_id.to_string());
             env::set_var(ENV_DEPTH, {
                 let mut depth = state.env().depth().to_string();
                 depth.push_str("  ");
